@@ -54,7 +54,8 @@ def run(ctx, rep):
             dst = E.strip_casts(fc.arg(t, 0))
             src = fc.arg(t, 1)
             zero = any(x[0] == "agg" and x[1] == "repeat" and x[2] and E.strip_casts(x[2][0]) == ("const", 0) for x in E.walk(dst))
-            starts0 = any(x[0] == "adt" and x[1].endswith("ops::Range") and len(x[3]) == 2 and E.strip_casts(x[3][0]) == ("const", 0) for x in E.walk(dst))
+            starts0 = any((x[0] == "adt" and x[1].endswith("ops::Range") and len(x[3]) == 2 and E.strip_casts(x[3][0]) == ("const", 0))
+                          or (x[0] == "adt" and (x[1].endswith("ops::RangeTo") or x[1].endswith("ops::RangeToInclusive"))) for x in E.walk(dst))   # [0..n] or [..n]
             pad = pad or (zero and starts0 and E.mentions_call(src, "serialize_final_without_header"))
         add("R12c", "padded form is [0; 16] with the serialized key as prefix", pad, "padding shape not recognised")
         # R12b: the condition that selects md5
